@@ -104,6 +104,11 @@ func GenPoolFor(r *Rng, nFaulty, nVariants, nDocs, faultyDocsIn10 int) *GenPool 
 	}
 	for i := 0; i < nFaulty; i++ {
 		f := GenSchema(NewRng(seed)) // same model again, then break it
+		if dirsFirst && r.Chance(1, 3) {
+			// a directive declared twice: what the loader says about it must not
+			// depend on which directive preludes the process has seen
+			DuplicateDirective(r, f)
+		}
 		InjectSchemaFaults(r, f, r.Range(1, 3))
 		order := seed + 1
 		if r.Chance(1, 2) {
